@@ -19,14 +19,15 @@ EXTENDS TraceLib, FiniteSets
 Cases == Records
 
 DecodeLike(r) == r.op \in {"Decode", "DecodeExclusive"}
-TypeOf(r) == IF r.op = "Predefined" THEN "cmap" ELSE "node"
+IsCMap(r) == r.op \in {"Predefined", "PredefinedFresh"}
+TypeOf(r) == IF r.op = "Predefined" THEN "cmap" ELSE IF r.op = "PredefinedFresh" THEN "cmapfresh" ELSE "node"
 Agreement(c) ==
   \A i, j \in 1..Len(c.results) :
      LET a == c.results[i] b == c.results[j] IN
      (a.ok /\ b.ok /\ a.id # 0 /\ b.id # 0 /\ a.ref = b.ref /\ TypeOf(a) = TypeOf(b)
-        /\ (DecodeLike(a) \/ a.op = "Pair" \/ a.op = "Predefined")
-        /\ (DecodeLike(b) \/ b.op = "Pair" \/ b.op = "Predefined")
-        /\ (a.op = "Predefined") = (b.op = "Predefined"))
+        /\ (DecodeLike(a) \/ a.op = "Pair" \/ IsCMap(a))
+        /\ (DecodeLike(b) \/ b.op = "Pair" \/ IsCMap(b))
+        /\ IsCMap(a) = IsCMap(b))
        => a.id = b.id
 SeqEquivalent(c) ==
   \A i \in 1..Len(c.results) :
